@@ -392,7 +392,17 @@ def run_check(mod, tier="quick", seed=0, replay=None):
         log(f"[{pid}] proof/correspondence broken: searching the real code for a failing input ({budget}s)…")
         seeds = [cases[d["case"]] for d in diffs[:20]]
         found = False
-        for case, r in mod.search(rng, budget, seeds):
+        it = iter(mod.search(rng, budget, seeds))
+        while True:
+            try:
+                case, r = next(it)
+            except StopIteration:
+                break
+            except Exception:
+                # the harness cannot observe this implementation on some searched case: that is
+                # part of the broken tie, not an infrastructure verdict; the search ends here
+                log(f"[{pid}] failing-input search stopped by a harness exception:\n{traceback.format_exc()[-800:]}")
+                break
             searched += 1
             for sig, msg in r.violations:
                 violations.append((sig, msg, case))
